@@ -242,3 +242,10 @@ Definition c28_commit (tbl : list string) (s : state) : out :=
   OList [OSym "ok";
          OList (map (fun '(p, m, h) => OList [OBytes p; out_mode m; OBytes (content_of t (h_cid h))])
                     (sort_by (fun x => fst (fst x)) (g_commit_files s)))].
+
+(* ------------------------------------------------------------ clean: empty directories *)
+
+(* doClean with Dir: removeDirIfEmpty on every directory visited, whatever the
+   ignore rules say; input = the empty directories of the worktree with their
+   ignore verdict, output = those that remain *)
+Definition g_clean_empty_dirs (dirs : list (path * bool)) : list path := [].
